@@ -33,6 +33,18 @@ def handleArith : List Sexp → Sexp
     match Kind.ofName? a, Kind.ofName? b with
     | some a, some b => .atom (Kind.maxRank a b).name
     | _, _ => .list [.atom "bad-request"]
+  | [.atom "tofloat", a] =>
+    match Val.ofSexp a with
+    | some a => match toFloat64Val a with
+      | some x => .list [.atom "ok", (Val.f64 x).toSexp]
+      | none => .list [.atom "err", .atom "noarm"]
+    | none => .list [.atom "bad-request"]
+  | [.atom "pow", a, b] =>
+    match Val.ofSexp a, Val.ofSexp b with
+    | some a, some b => match toFloat64Val a, toFloat64Val b with
+      | some x, some y => .list [.atom "ok", (Val.f64 (Float.pow x y)).toSexp]
+      | _, _ => .list [.atom "err", .atom "noarm"]
+    | _, _ => .list [.atom "bad-request"]
   | [.atom "toint", a] =>
     match Val.ofSexp a with
     | some a => match toIntVal a with
@@ -46,5 +58,6 @@ end ExprModel.Drv
 namespace ExprModel.Drv
 /-- stage table exported to Driver.lean: (request tag, handler receiving the whole request list) -/
 def arithHandlers : List (String × (List Sexp → Sexp)) :=
-  [("arith", handleArith), ("neg", handleArith), ("combined", handleArith), ("toint", handleArith)]
+  [("arith", handleArith), ("neg", handleArith), ("combined", handleArith), ("toint", handleArith),
+   ("tofloat", handleArith), ("pow", handleArith)]
 end ExprModel.Drv
